@@ -18,8 +18,10 @@
 #include <fcppt/parse/complement_decl.hpp>
 #include <fcppt/parse/deref.hpp>
 #include <fcppt/parse/error.hpp>
+#include <fcppt/parse/get_position.hpp>
 #include <fcppt/parse/make_success.hpp>
 #include <fcppt/parse/result.hpp>
+#include <fcppt/parse/detail/expected.hpp>
 #include <fcppt/config/external_begin.hpp>
 #include <utility>
 #include <fcppt/config/external_end.hpp>
@@ -37,13 +39,15 @@ fcppt::parse::complement<Parser>::parse(
 {
   fcppt::parse::basic_char<Ch> const parser{};
 
-  return fcppt::either::bind(parser.parse(_state, _skipper), [this](Ch const _result) {
+  return fcppt::either::bind(parser.parse(_state, _skipper), [_state, this](Ch const _result) {
     return fcppt::container::contains(fcppt::parse::deref(this->parser_).chars(), _result)
-               ? fcppt::either::make_failure<result_type>(fcppt::parse::error<Ch>{
-                     FCPPT_STRING_LITERAL(Ch, "Expected any char but {") +
-                     fcppt::output_to_string<std::basic_string<Ch>>(
-                         fcppt::container::output(fcppt::parse::deref(this->parser_).chars())) +
-                     std::basic_string<Ch>{FCPPT_STRING_LITERAL(Ch, "}, got ")} + _result})
+               ? fcppt::either::make_failure<result_type>(fcppt::parse::detail::expected(
+                     fcppt::parse::get_position(_state),
+                     FCPPT_STRING_LITERAL(Ch, "any char but {") +
+                         fcppt::output_to_string<std::basic_string<Ch>>(fcppt::container::output(
+                             fcppt::parse::deref(this->parser_).chars())) +
+                         std::basic_string<Ch>{FCPPT_STRING_LITERAL(Ch, "}")},
+                     _result))
                : fcppt::parse::make_success<Ch>(_result);
   });
 }
